@@ -26,6 +26,7 @@ type FakeInflux struct {
 type RecQuery struct {
 	Stamp   int64
 	AtNs    int64
+	DoneNs  int64 // virtual time at which the answer (or error) was handed back
 	Command string
 	DB      string
 	Cluster string
@@ -82,11 +83,15 @@ func (c *fakeClient) Query(q influxdb.Query) (*influxdb.Response, error) {
 		return nil, errors.New("simulated process is gone")
 	}
 	c.f.Queries = append(c.f.Queries, RecQuery{Stamp: simrt.Stamp(), AtNs: simrt.NowNs(), Command: q.Command, DB: q.Database, Cluster: c.cluster})
+	qi := len(c.f.Queries) - 1
 	if c.f.QueryLatency != nil {
 		if d := c.f.QueryLatency(); d > 0 {
 			time.Sleep(d)
 			simrt.Count("fault.influx.slow")
 		}
+	}
+	if simrt.Active() && qi < len(c.f.Queries) {
+		c.f.Queries[qi].DoneNs = simrt.NowNs()
 	}
 	if c.f.QueryErr != nil {
 		if err := c.f.QueryErr(); err != nil {
